@@ -10,7 +10,13 @@ import (
 	"golang.org/x/tools/go/ssa"
 )
 
+var execSeq int
+
 func (x *Exec) newFrame(fn *ssa.Function, parent *Frame) *Frame {
+	if x.id == 0 {
+		execSeq++
+		x.id = execSeq
+	}
 	x.frameSeq++
 	fr := &Frame{x: x, fn: fn, id: x.frameSeq, env: map[ssa.Value]Term{}, tuples: map[ssa.Value][]Term{},
 		allocRef: map[*ssa.Alloc]Term{}, params: map[string]sval{}}
